@@ -190,6 +190,77 @@ spec fn blk_ok(all: Seq<Token>, a: int, b: int, cuts: Seq<(int, int)>, n: int) -
         && (all[cuts[i].1].kind == TokenKind::Eol || all[cuts[i].1].kind == TokenKind::Eof)
 }
 
+spec fn wexpr(e: Expr) -> bool { true }
+
+spec fn wblk2(c: Seq<(int, int)>, d: Seq<(int, int)>) -> bool { true }
+
+/// all[a..b) is `declare <name> = <expression> ;` (C12, C14)
+spec fn decl_src(all: Seq<Token>, input: &str, a: int, b: int) -> bool {
+    &&& 0 <= a && a + 5 <= b && b <= all.len()
+    &&& all[a].kind == TokenKind::Declare && all[a + 1].kind == TokenKind::Ident && all[a + 2].kind == TokenKind::Equal
+    &&& all[b - 1].kind == TokenKind::Semi
+    &&& exists|e: Expr| #[trigger] wexpr(e) && expr_src(all, input, a + 3, b - 1, e)
+}
+/// position j lies inside one of the ranges
+spec fn in_cut(c: Seq<(int, int)>, j: int) -> bool { exists|i: int| #[trigger] wi(i) && 0 <= i < c.len() && c[i].0 <= j < c[i].1 }
+
+/// C12: a block holds nothing but statements, declarations and line breaks. Every token of all[a..b) belongs to one of the
+/// statements (`cuts`), to one of the declarations (`dcuts`: each is `declare name = expression ;` followed by a line
+/// break or the end of input), or is a line break.
+#[verifier::opaque]
+spec fn gaps_ok(all: Seq<Token>, input: &str, a: int, b: int, cuts: Seq<(int, int)>, dcuts: Seq<(int, int)>) -> bool {
+    &&& forall|i: int| #[trigger] wi(i) && 0 <= i < dcuts.len() ==> a <= dcuts[i].0 && dcuts[i].1 <= b && dcuts[i].1 < all.len()
+        && decl_src(all, input, dcuts[i].0, dcuts[i].1)
+        && (all[dcuts[i].1].kind == TokenKind::Eol || all[dcuts[i].1].kind == TokenKind::Eof)
+    &&& forall|j: int| #[trigger] wj(j) && a <= j < b ==> all[j].kind == TokenKind::Eol || in_cut(cuts, j) || in_cut(dcuts, j)
+}
+proof fn lemma_in_cut_push(c: Seq<(int, int)>, x: (int, int), j: int)
+    ensures in_cut(c, j) ==> in_cut(c.push(x), j), x.0 <= j < x.1 ==> in_cut(c.push(x), j)
+{
+    let c2 = c.push(x);
+    if in_cut(c, j) {
+        let i = choose|i: int| #[trigger] wi(i) && 0 <= i < c.len() && c[i].0 <= j < c[i].1;
+        assert(wi(i) && c2[i] == c[i]);
+    }
+    if x.0 <= j < x.1 { assert(wi(c.len() as int) && c2[c.len() as int] == x); }
+}
+proof fn lemma_gaps_empty(all: Seq<Token>, input: &str, a: int)
+    ensures gaps_ok(all, input, a, a, Seq::empty(), Seq::empty())
+{ reveal(gaps_ok); }
+/// one more line break
+proof fn lemma_gaps_eol(all: Seq<Token>, input: &str, a: int, b: int, cuts: Seq<(int, int)>, dcuts: Seq<(int, int)>)
+    requires gaps_ok(all, input, a, b, cuts, dcuts), 0 <= b < all.len(), all[b].kind == TokenKind::Eol
+    ensures gaps_ok(all, input, a, b + 1, cuts, dcuts)
+{ reveal(gaps_ok); }
+/// one more statement, starting where the covered range ends
+proof fn lemma_gaps_stmt(all: Seq<Token>, input: &str, a: int, b: int, b2: int, cuts: Seq<(int, int)>, dcuts: Seq<(int, int)>)
+    requires gaps_ok(all, input, a, b, cuts, dcuts), b <= b2
+    ensures gaps_ok(all, input, a, b2, cuts.push((b, b2)), dcuts)
+{
+    reveal(gaps_ok);
+    let c2 = cuts.push((b, b2));
+    assert forall|j: int| #[trigger] wj(j) && a <= j < b2 implies all[j].kind == TokenKind::Eol || in_cut(c2, j) || in_cut(dcuts, j) by {
+        lemma_in_cut_push(cuts, (b, b2), j);
+    }
+}
+/// one more declaration, starting where the covered range ends
+proof fn lemma_gaps_decl(all: Seq<Token>, input: &str, a: int, b: int, b2: int, cuts: Seq<(int, int)>, dcuts: Seq<(int, int)>)
+    requires gaps_ok(all, input, a, b, cuts, dcuts), a <= b, decl_src(all, input, b, b2), b2 < all.len(),
+        all[b2].kind == TokenKind::Eol || all[b2].kind == TokenKind::Eof,
+    ensures gaps_ok(all, input, a, b2, cuts, dcuts.push((b, b2)))
+{
+    reveal(gaps_ok);
+    let d2 = dcuts.push((b, b2));
+    assert forall|j: int| #[trigger] wj(j) && a <= j < b2 implies all[j].kind == TokenKind::Eol || in_cut(cuts, j) || in_cut(d2, j) by {
+        lemma_in_cut_push(dcuts, (b, b2), j);
+    }
+    assert forall|i: int| #[trigger] wi(i) && 0 <= i < d2.len() implies a <= d2[i].0 && d2[i].1 <= b2 && d2[i].1 < all.len()
+        && decl_src(all, input, d2[i].0, d2[i].1)
+        && (all[d2[i].1].kind == TokenKind::Eol || all[d2[i].1].kind == TokenKind::Eof) by {
+        if i < dcuts.len() { assert(d2[i] == dcuts[i]); } else { assert(d2[i] == (b, b2)); }
+    }
+}
+
 /// all[a..b) is one statement that yields `s`. `base` is the line on which the token sequence starts: the line recorded
 /// for a data row is base + the number of line breaks before the row's first token (C19). C12: every keyword,
 /// parenthesis, comma, semicolon and `end <keyword>` the grammar demands is there.
@@ -208,7 +279,9 @@ spec fn stmt_src(all: Seq<Token>, input: &str, base: int, a: int, b: int, s: Stm
             && (exists|m: int, cuts: Seq<(int, int)>| #[trigger] wm(m, cuts) && a + 2 < m && m + 2 <= b - 2
                 && expr_src(all, input, a + 2, m, condition) && all[m].kind == TokenKind::RParen && all[m + 1].kind == TokenKind::Eol
                 && blk_ok(all, m + 2, b, cuts, inner@.len() as int)
-                && (forall|i: int| #[trigger] wi(i) && 0 <= i < inner@.len() ==> stmt_src(all, input, base, cuts[i].0, cuts[i].1, inner@[i]))),
+                && (forall|i: int| #[trigger] wi(i) && 0 <= i < inner@.len() ==> stmt_src(all, input, base, cuts[i].0, cuts[i].1, inner@[i]))
+                // between the header line and `end while`: only these statements, declarations and line breaks
+                && (exists|dcuts: Seq<(int, int)>| #[trigger] wblk(dcuts) && gaps_ok(all, input, m + 2, b - 2, cuts, dcuts))),
         Stmt::Loop { variable, max, inner } =>
             // loop(v, n) <line break> statements end loop
             (a + 9 <= b && all[a].kind == TokenKind::Loop && all[a + 1].kind == TokenKind::LParen && all[a + 2].kind == TokenKind::Ident
@@ -217,7 +290,8 @@ spec fn stmt_src(all: Seq<Token>, input: &str, base: int, a: int, b: int, s: Stm
                 && (exists|m: int, cuts: Seq<(int, int)>| #[trigger] wm(m, cuts) && a + 4 < m && m + 2 <= b - 2
                     && expr_src(all, input, a + 4, m, max) && all[m].kind == TokenKind::RParen && all[m + 1].kind == TokenKind::Eol
                     && blk_ok(all, m + 2, b, cuts, inner@.len() as int)
-                    && (forall|i: int| #[trigger] wi(i) && 0 <= i < inner@.len() ==> stmt_src(all, input, base, cuts[i].0, cuts[i].1, inner@[i]))))
+                    && (forall|i: int| #[trigger] wi(i) && 0 <= i < inner@.len() ==> stmt_src(all, input, base, cuts[i].0, cuts[i].1, inner@[i]))
+                    && (exists|dcuts: Seq<(int, int)>| #[trigger] wblk(dcuts) && gaps_ok(all, input, m + 2, b - 2, cuts, dcuts))))
             // repeat(n) row : a loop over the one row, counter `n` (C01)
             || (all[a].kind == TokenKind::Repeat && all[a + 1].kind == TokenKind::LParen && variable@ == "n"@ && inner@.len() == 1
                 && (exists|m: int, cuts: Seq<(int, int)>| #[trigger] wm(m, cuts) && a + 2 < m && m + 1 <= b
@@ -281,21 +355,21 @@ proof fn lemma_stmt_src_reset(all: Seq<Token>, input: &str, base: int, a: int)
     requires 0 <= a && a + 2 <= all.len(), all[a].kind == TokenKind::ResetRandom, all[a + 1].kind == TokenKind::Semi
     ensures stmt_src(all, input, base, a, a + 2, Stmt::ResetRandom)
 { reveal(stmt_src); }
-proof fn lemma_stmt_src_while(all: Seq<Token>, input: &str, base: int, a: int, b: int, m: int, cuts: Seq<(int, int)>, condition: Expr, inner: Vec<Stmt>)
+proof fn lemma_stmt_src_while(all: Seq<Token>, input: &str, base: int, a: int, b: int, m: int, cuts: Seq<(int, int)>, dcuts: Seq<(int, int)>, condition: Expr, inner: Vec<Stmt>)
     requires 0 <= a && a + 7 <= b <= all.len(), all[a].kind == TokenKind::While, all[a + 1].kind == TokenKind::LParen,
         all[b - 2].kind == TokenKind::End, all[b - 1].kind == TokenKind::While, a + 2 < m, m + 2 <= b - 2,
         expr_src(all, input, a + 2, m, condition), all[m].kind == TokenKind::RParen, all[m + 1].kind == TokenKind::Eol,
-        block_src(all, input, base, m + 2, b, cuts, inner@),
+        block_src(all, input, base, m + 2, b, cuts, inner@), gaps_ok(all, input, m + 2, b - 2, cuts, dcuts),
     ensures stmt_src(all, input, base, a, b, Stmt::While { condition, inner })
-{ reveal(stmt_src); assert(wm(m, cuts)); }
-proof fn lemma_stmt_src_loop(all: Seq<Token>, input: &str, base: int, a: int, b: int, m: int, cuts: Seq<(int, int)>, variable: String, max: Expr, inner: Vec<Stmt>)
+{ reveal(stmt_src); assert(wm(m, cuts)); assert(wblk(dcuts)); }
+proof fn lemma_stmt_src_loop(all: Seq<Token>, input: &str, base: int, a: int, b: int, m: int, cuts: Seq<(int, int)>, dcuts: Seq<(int, int)>, variable: String, max: Expr, inner: Vec<Stmt>)
     requires 0 <= a && a + 9 <= b <= all.len(), all[a].kind == TokenKind::Loop, all[a + 1].kind == TokenKind::LParen, all[a + 2].kind == TokenKind::Ident,
         variable@ == tok_str(input, all[a + 2]), all[a + 3].kind == TokenKind::Comma,
         all[b - 2].kind == TokenKind::End, all[b - 1].kind == TokenKind::Loop, a + 4 < m, m + 2 <= b - 2,
         expr_src(all, input, a + 4, m, max), all[m].kind == TokenKind::RParen, all[m + 1].kind == TokenKind::Eol,
-        block_src(all, input, base, m + 2, b, cuts, inner@),
+        block_src(all, input, base, m + 2, b, cuts, inner@), gaps_ok(all, input, m + 2, b - 2, cuts, dcuts),
     ensures stmt_src(all, input, base, a, b, Stmt::Loop { variable, max, inner })
-{ reveal(stmt_src); assert(wm(m, cuts)); }
+{ reveal(stmt_src); assert(wm(m, cuts)); assert(wblk(dcuts)); }
 proof fn lemma_stmt_src_repeat(all: Seq<Token>, input: &str, base: int, a: int, b: int, m: int, variable: String, max: Expr, inner: Vec<Stmt>, data: Vec<DataEntry>, line: usize)
     requires 0 <= a < b <= all.len(), all[a].kind == TokenKind::Repeat, all[a + 1].kind == TokenKind::LParen, variable@ == "n"@,
         a + 2 < m, m + 1 <= b, expr_src(all, input, a + 2, m, max), all[m].kind == TokenKind::RParen,
